@@ -587,7 +587,12 @@ def p_meshgrid(I, n, pos, kw):
 
 @prim("numpy.reshape")
 def p_reshape(I, n, pos, kw):
-    return m_reshape(I, n, pos[0], pos[1:], kw)
+    kw2 = dict(kw)
+    rest = list(pos[1:])
+    if len(rest) > 1 and isinstance(rest[1], StrV):
+        kw2["order"] = rest[1]
+        rest = rest[:1]
+    return m_reshape(I, n, pos[0], rest, kw2)
 
 
 # ----------------------------------------------------------------------------- library solvers
@@ -766,6 +771,14 @@ def array_attr(I, base: Val, attr: str, node) -> Val:
 
 @method("flatten", "ravel")
 def m_flatten(I, n, recv, pos, kw):
+    order = kw.get("order", pos[0] if pos else None)
+    o = order.s if isinstance(order, StrV) else "C"
+    if isinstance(recv, Arr) and recv.ndim == 2 and all(sp.concrete is None for sp, _ in recv.axes):
+        # a logically 1-d array that remembers the axes it was flattened from (row-major or column-major)
+        out = Arr(recv.axes, recv.elem, "nd", recv.uid)
+        out.flat = o
+        I.event("flatten", n, arg=recv, order=o)
+        return out
     return arrays.flatten(recv)
 
 
@@ -795,12 +808,18 @@ def m_astype(I, n, recv, pos, kw):
 def m_reshape(I, n, recv, pos, kw):
     shp = pos[0] if len(pos) == 1 else Seq(list(pos), "tuple")
     order = kw.get("order")
-    I.event("reshape", n, arg=recv, shape=shp, order=order.s if isinstance(order, StrV) else None)
+    o = order.s if isinstance(order, StrV) else "C"
     tgt = _shape_arg(I, shp) if not isinstance(shp, Sc) else [shp.e]
-    origin = getattr(recv, "flat_of", None)
-    if origin is not None and tgt is not None and len(tgt) == len(origin.axes) and \
-            all(sym.equal(t, sp.size) for t, (sp, _) in zip(tgt, origin.axes)):
-        return Arr(origin.axes, recv.elem, "nd")
+    flat = getattr(recv, "flat", None)
+    ev = I.event("reshape", n, arg=recv, shape=tgt, order=o, flat=flat, verdict=None)
+    if flat is not None and tgt is not None and isinstance(recv, Arr) and len(tgt) == recv.ndim:
+        sizes = [sp.size for sp, _ in recv.axes]
+        same = all(sym.equal(t, z) for t, z in zip(tgt, sizes))
+        if same and o == flat:
+            ev["verdict"] = "round-trip"
+            return Arr(recv.axes, recv.elem, "nd")
+        ev["verdict"] = "scrambled"
+        return I.unknown("reshape-scrambles-axes", n, (generic_elem(recv),))
     return I.unknown("reshape", n, (generic_elem(recv),))
 
 
